@@ -170,4 +170,197 @@ theorem specParent_insert_child (infos : List Info) (i e : Nat) (x li : Info)
             exact h3 ⟨hip, by omega⟩
           simp [hpe, hnc, show p ≤ e by omega]
 
+/-! ## trees whose parents are the specified ones -/
+
+/-- `t` is a forest over `infos` whose parent links are `specParent`, and a configuration
+line is not a comment -/
+def SpecTree (t : T) (infos : List Info) : Prop :=
+  Forest t ∧ infos.length = t.size ∧ (∀ j, j < t.size → parentOf t j = specParent infos j) ∧
+  (∀ (j : Nat) (l : Info), infos[j]? = some l → l.isCfg = true → l.isCmt = false)
+
+/-- what it means to have a parent other than oneself -/
+theorem specTree_parent {t : T} {infos : List Info} (h : SpecTree t infos) {j : Nat} (hj : j < t.size)
+    (hne : parentOf t j ≠ j) :
+    ∃ lp lj, infos[parentOf t j]? = some lp ∧ infos[j]? = some lj ∧ parentOf t j < j ∧
+      lp.isCfg = true ∧ lp.indent < lj.indent ∧
+      nearestShallower infos lj.indent j = some (parentOf t j) := by
+  obtain ⟨hf, hlen, hpar, _⟩ := h
+  have hp := hpar j hj
+  have hjl : j < infos.length := by omega
+  have hl : infos[j]? = some infos[j] := List.getElem?_eq_getElem hjl
+  have hroot : ¬ (infos[j].indent = 0 ∨ commentUnderDeeper infos j = true) := by
+    intro hr; apply hne; rw [hp]; unfold specParent; rw [hl]; simp [hr]
+  have hsp : specParent infos j = (nearestShallower infos infos[j].indent j).getD j := by
+    unfold specParent; rw [hl]; simp only [hroot, if_false]
+  cases hn : nearestShallower infos infos[j].indent j with
+  | none => exfalso; apply hne; rw [hp, hsp, hn]; rfl
+  | some p =>
+    have hpp : parentOf t j = p := by rw [hp, hsp, hn]; rfl
+    rw [hpp]
+    obtain ⟨h1, ⟨lp, h2, h3, h4⟩, _⟩ := (nearestShallower_eq_some infos _ j p).mp hn
+    exact ⟨lp, infos[j], h2, hl, h1, h3, h4, hn⟩
+
+/-- up the ancestor chain: configuration lines, strictly decreasing indentation -/
+theorem specTree_ancestor {t : T} {infos : List Info} (h : SpecTree t infos) {a j : Nat}
+    (ha : a ∈ ancestors t j) :
+    ∃ la lj, infos[a]? = some la ∧ infos[j]? = some lj ∧ la.isCfg = true ∧ la.indent < lj.indent := by
+  induction j using Nat.strongRecOn with
+  | ind j ih =>
+    by_cases hp : parentOf t j < j
+    · have hj : j < t.size := ancestors_lt_size h.1 ha
+      obtain ⟨lp, lj, h1, h2, _, h4, h5, _⟩ := specTree_parent h hj (by omega)
+      rw [ancestors_of_lt hp] at ha
+      rcases List.mem_cons.mp ha with rfl | ha
+      · exact ⟨lp, lj, h1, h2, h4, h5⟩
+      · obtain ⟨la, lp', h6, h7, h8, h9⟩ := ih _ hp ha
+        rw [h1] at h7; cases h7
+        exact ⟨la, lj, h6, h2, h8, by omega⟩
+    · rw [ancestors_of_not_lt hp] at ha; cases ha
+
+/-- every configuration line between `i` and a descendant `e` of `i` is indented deeper than `i` -/
+theorem specTree_sandwich {t : T} {infos : List Info} (h : SpecTree t infos) {i e : Nat} {li : Info}
+    (hi : infos[i]? = some li) (he : i ∈ ancestors t e) :
+    ∀ m l, i < m → m ≤ e → infos[m]? = some l → l.isCfg = true → li.indent < l.indent := by
+  induction e using Nat.strongRecOn with
+  | ind e ih =>
+    intro m l him hme hl hc
+    have hpe : parentOf t e < e := by
+      apply Classical.byContradiction; intro hn
+      rw [ancestors_of_not_lt hn] at he; cases he
+    have hes : e < t.size := ancestors_lt_size h.1 he
+    obtain ⟨lp, le, h1, h2, _, h4, h5, h6⟩ := specTree_parent h hes (by omega)
+    rw [ancestors_of_lt hpe] at he
+    -- the parent is `i` or a descendant of `i`: its indent is ≥ that of `i`
+    have hpi : li.indent ≤ lp.indent ∧ i ≤ parentOf t e := by
+      rcases List.mem_cons.mp he with heq | he'
+      · rw [← heq] at h1; rw [hi] at h1; cases h1; exact ⟨Nat.le_refl _, by omega⟩
+      · have hip := ancestors_lt he'
+        have := ih _ hpe he' (parentOf t e) lp hip (Nat.le_refl _) h1 h4
+        exact ⟨by omega, by omega⟩
+    by_cases hmp : m ≤ parentOf t e
+    · rcases List.mem_cons.mp he with heq | he'
+      · omega
+      · exact ih _ hpe he' m l him hmp hl hc
+    · by_cases hme' : m = e
+      · subst hme'; rw [h2] at hl; cases hl; omega
+      · have := ((nearestShallower_eq_some infos le.indent e _).mp h6).2.2 m l (by omega) (by omega) hl
+        have : ¬ l.indent < le.indent := fun hh => this ⟨hc, hh⟩
+        omega
+
+/-- a configuration line after `i` such that all configuration lines in between (and itself)
+are indented deeper than `i` is a descendant of `i` -/
+theorem specTree_descendant {t : T} {infos : List Info} (h : SpecTree t infos) {i : Nat} {li : Info}
+    (hi : infos[i]? = some li) (hli : li.isCfg = true) :
+    ∀ m l, i < m → infos[m]? = some l → l.isCfg = true →
+      (∀ m' l', i < m' → m' ≤ m → infos[m']? = some l' → l'.isCfg = true → li.indent < l'.indent) →
+      i ∈ ancestors t m := by
+  intro m
+  induction m using Nat.strongRecOn with
+  | ind m ih =>
+    intro l him hl hc hall
+    have hms : m < t.size := by
+      have := (List.getElem?_eq_some_iff.mp hl).1; have := h.2.1; omega
+    have hlm := hall m l him (Nat.le_refl _) hl hc
+    have hpar := h.2.2.1 m hms
+    have hcud : commentUnderDeeper infos m = false := by
+      have hcm := h.2.2.2 m l hl hc
+      unfold commentUnderDeeper
+      cases m with
+      | zero => rfl
+      | succ m' => simp [hl, hcm]
+    have hsp : specParent infos m = (nearestShallower infos l.indent m).getD m := by
+      unfold specParent; rw [hl]
+      simp [hcud, show ¬ l.indent = 0 by omega]
+    cases hn : nearestShallower infos l.indent m with
+    | none =>
+      exact absurd ⟨hli, hlm⟩ ((nearestShallower_eq_none infos l.indent m).mp hn i li him hi)
+    | some q =>
+      obtain ⟨hq1, ⟨lq, hq2, hq3, hq4⟩, hq5⟩ := (nearestShallower_eq_some infos l.indent m q).mp hn
+      have hpq : parentOf t m = q := by rw [hpar, hsp, hn]; rfl
+      have hiq : i ≤ q := by
+        apply Classical.byContradiction; intro hlt
+        exact hq5 i li (by omega) him hi ⟨hli, hlm⟩
+      rw [ancestors_of_lt (by omega), hpq]
+      by_cases hqi : q = i
+      · simp [hqi]
+      · refine List.mem_cons_of_mem _ (ih q hq1 lq (by omega) hq2 hq3 ?_)
+        intro m' l' h1 h2 h3 h4
+        exact hall m' l' h1 (by omega) h3 h4
+
+/-- all configuration lines inside the span of `i`'s family are descendants of `i` -/
+theorem specTree_between {t : T} {infos : List Info} (h : SpecTree t infos) {i e : Nat} {li : Info}
+    (hi : infos[i]? = some li) (hli : li.isCfg = true) (he : i ∈ ancestors t e) :
+    ∀ m l, i < m → m ≤ e → infos[m]? = some l → l.isCfg = true → i ∈ ancestors t m := by
+  intro m l him hme hl hc
+  refine specTree_descendant h hi hli m l him hl hc ?_
+  intro m' l' h1 h2 h3 h4
+  exact specTree_sandwich h hi he m' l' h1 (by omega) h3 h4
+
+
+/-- **child-level insertion after the family of `i`** in a tree whose links are the
+specified ones: `i` has children, the payload `x` is not a comment and is indented deeper
+than `i`, and every direct child of `i` that is a configuration line is indented at least
+as deep as the payload.  Inserting `x` directly after the last descendant of `i` makes `x` a
+child of `i` and leaves every other line's parent as it was (shifted) — except possibly a
+comment directly after the insertion point. -/
+theorem specTree_insert_child {t : T} {infos : List Info} (h : SpecTree t infos) (i : Nat) (x : Info)
+    (hk : children t i ≠ []) (hxc : x.isCmt = false)
+    (hlt : ∀ li, infos[i]? = some li → li.indent < x.indent)
+    (Hc : ∀ c l, c ∈ children t i → infos[c]? = some l → l.isCfg = true → x.indent ≤ l.indent) :
+    i ≤ familyEndpoint t i ∧ familyEndpoint t i < infos.length ∧
+    specParent (infos.take (familyEndpoint t i + 1) ++ x :: infos.drop (familyEndpoint t i + 1))
+      (familyEndpoint t i + 1) = i ∧
+    (∀ j, j ≤ familyEndpoint t i →
+      specParent (infos.take (familyEndpoint t i + 1) ++ x :: infos.drop (familyEndpoint t i + 1)) j
+        = specParent infos j) ∧
+    (∀ j l, familyEndpoint t i < j → infos[j]? = some l → ¬ (j = familyEndpoint t i + 1 ∧ l.isCmt = true) →
+      specParent (infos.take (familyEndpoint t i + 1) ++ x :: infos.drop (familyEndpoint t i + 1)) (j + 1)
+        = if specParent infos j ≤ familyEndpoint t i then specParent infos j else specParent infos j + 1) := by
+  have hf := h.1
+  obtain ⟨c, hc⟩ := List.exists_mem_of_ne_nil _ hk
+  obtain ⟨hcs, hpc, hci⟩ := mem_children.mp hc
+  obtain ⟨li, lc, hli, _, hic, hlicfg, _, _⟩ := specTree_parent h hcs (by omega)
+  rw [hpc] at hli hic
+  have his : i < t.size := by omega
+  have hmax := familyEndpoint_max hf i
+  have hes : familyEndpoint t i < t.size := Ccp.Edit.familyEndpoint_lt_size hf his
+  have hcall : c ∈ allChildren t i := (mem_allChildren hf).mpr (mem_ancestors_of_child hf hc)
+  have hce : c ≤ familyEndpoint t i := hmax.2 c (List.mem_cons_of_mem _ hcall)
+  have hie : i ∈ ancestors t (familyEndpoint t i) := by
+    rcases List.mem_cons.mp hmax.1 with heq | hm
+    · omega
+    · exact (mem_allChildren hf).mp hm
+  have hlen := h.2.1
+  have H1 : ∀ m l, i < m → m ≤ familyEndpoint t i → infos[m]? = some l → l.isCfg = true →
+      x.indent ≤ l.indent := by
+    intro m l him hme hl hcfg
+    have hanc := specTree_between h hli hlicfg hie m l him hme hl hcfg
+    obtain ⟨c', hc1, hc2, hc3⟩ := ancestors_child hanc
+    have hms : m < t.size := ancestors_lt_size hf hanc
+    rcases hc3 with rfl | hc3
+    · exact Hc c' l (mem_children.mpr ⟨hms, hc1, by omega⟩) hl hcfg
+    · have hcm := ancestors_lt hc3
+      obtain ⟨la, lj, h1, h2, h3, h4⟩ := specTree_ancestor h hc3
+      rw [hl] at h2; cases h2
+      have := Hc c' la (mem_children.mpr ⟨by omega, hc1, by omega⟩) h1 h3
+      omega
+  have H3 : ∀ j, familyEndpoint t i < j → j < infos.length →
+      ¬ (i ≤ specParent infos j ∧ specParent infos j ≤ familyEndpoint t i) := by
+    intro j hej hjl ⟨hp1, hp2⟩
+    have hjs : j < t.size := by omega
+    have hpar := h.2.2.1 j hjs
+    rw [← hpar] at hp1 hp2
+    have hne : parentOf t j ≠ j := by omega
+    obtain ⟨lp, lj, h1, h2, h3, h4, h5, _⟩ := specTree_parent h hjs hne
+    have hij : i ∈ ancestors t j := by
+      rw [ancestors_of_lt h3]
+      by_cases hpi : parentOf t j = i
+      · simp [hpi]
+      · exact List.mem_cons_of_mem _ (specTree_between h hli hlicfg hie _ lp (by omega) hp2 h1 h4)
+    have := hmax.2 j (List.mem_cons_of_mem _ ((mem_allChildren hf).mpr hij))
+    omega
+  obtain ⟨r1, r2, r3⟩ := specParent_insert_child infos i (familyEndpoint t i) x li hli (by omega) (by omega)
+    hlicfg hxc (hlt li hli) H1 H3
+  exact ⟨by omega, by omega, r1, r2, r3⟩
+
 end Ccp.Tree
